@@ -109,3 +109,25 @@ PROPS["C03"] = dict(
                       consts=dict(DPMaxN={"quick": 12, "thorough": 18}),
                       record_args={"quick": ["-n", 24, "-calls", 5, "-max", 80], "thorough": ["-n", 480, "-calls", 8, "-max", 300]})],
 )
+
+PROPS["C17"] = dict(
+    family="ticks", specdir="ticks",
+    technique="TLA+ state machine of the FindLevel search checked against its definition for every threshold/guess/limit combination; exact rational model of Linear and Log tick sets with the level chosen by the definition; relational TLA+ specification of Nice validated on recorded calls",
+    level_text="FindLevel.tla: TLC explores the search (clamp, probe down/up) for every threshold of a non-increasing count function, guess and level-limit pair in -6..6 (thorough -12..12) plus never/always-fitting tickers and checks it returns the lowest fitting level or fails exactly when none exists; terminal states are replayed into TickOptions.FindLevel with a table-driven Ticker. Ticks.tla: exact tick sets for 12 (thorough 80+) mantissa domains x bases 0,2,3,5,10,16 x scales 10^-9..10^9 x Max 1..20 x level limits, and Log domains spanning 1e-100..1e100 of either sign; Ticks, CountTicks and TicksAtLevel of the real scales are compared tick by tick. NiceTrace.tla: recorded Nice calls on random domains are judged by the relational specification (never shrinks, finite; Max >= 3: idempotent, < 1 major spacing per end, ends are major ticks)",
+    level_note="Trusted: TLC, binder comparison code (tick values within 1e-9 of the domain width / relative for Log), math.Pow for scaling mantissa domains. Domains end on a tick or at least 1e-6 widths away from one (statement). Nice with level limits that admit no level is only required not to shrink or corrupt the domain.",
+    stages=[
+        dict(name="findlevel", kind="gen", family="findlevel", module="FindLevel.tla", cfg="FindLevel_gen.cfg",
+             consts=dict(Span={"quick": 4, "thorough": 8})),
+        dict(name="ticks", kind="gen", family="ticks", module="Ticks.tla", cfg="Ticks_gen.cfg",
+             consts=dict(LinDoms={"quick": "LinDomsQuick", "thorough": "LinDomsThorough"},
+                         LinBases={"quick": "{0,2,3,10,16}", "thorough": "{0,2,3,5,10,16}"},
+                         Scales={"quick": "{0,3,9}", "thorough": "{0,1,3,6,9}"},
+                         LogDoms={"quick": "LogDomsQuick", "thorough": "LogDomsThorough"},
+                         LogBases={"quick": "{2,10,16}", "thorough": "{2,3,5,10,16}"},
+                         Maxes={"quick": "{1,2,3,5,10,20}", "thorough": "{1,2,3,4,5,6,7,8,10,13,17,20}"})),
+        dict(name="findlevel_unbounded", kind="apalache", family="findlevel", module="FindLevelInd.tla", inv="IndInv", indinit="IndInit",
+             note="inductive invariant (contains the postcondition: lowest fitting level, failure iff none) over unbounded integer levels, thresholds and limits"),
+        dict(name="nice", kind="trace", family="nice", module="NiceTrace.tla", cfg="NiceTrace.cfg",
+             record_args={"quick": ["-n", 40, "-calls", 30], "thorough": ["-n", 1600, "-calls", 60]}),
+    ],
+)
